@@ -11,6 +11,8 @@ POISON_UNHASHABLE = {"l": [9, 9]}
 def enc(v):
     if v is None or isinstance(v, (bool, str)):
         return v
+    if type(v).__module__ == "numpy" and type(v).__name__.startswith(("int", "uint")):
+        return {"npi": int(v)}  # numpy integer labels keep their type in replay files
     if isinstance(v, int):
         return int(v)
     if isinstance(v, float):
@@ -38,6 +40,10 @@ def enc(v):
 
 def dec(v):
     if isinstance(v, dict):
+        if "npi" in v:
+            import numpy as np
+
+            return np.int64(v["npi"])
         if "f" in v:
             return float(v["f"])
         if "t" in v:
